@@ -421,6 +421,7 @@ def ensure_replay_cache():
 def native_replay(harness_files, harness, vals, watchdog_s=20, annotations=(), inject=()):
     """Build the scratch copy natively with --cfg verif_replay (real std HashMap, no shim, no Kani) and run
     the harness with the recorded values.  Returns (reproduced: bool|None, output)."""
+    ensure_backtrace_patch()
     d = scratch_root()
     try:
         dst = os.path.join(d, "repo")
@@ -451,6 +452,7 @@ def native_replay(harness_files, harness, vals, watchdog_s=20, annotations=(), i
 def native_bounded(harness_files, names, inject=(), watchdog_s=300):
     """Bounded stand-in (NOT a proof): build the scratch copy natively (--cfg verif_replay, real std) and run exhaustive
     enumeration harnesses.  Returns {name: (ok: bool|None, output)}."""
+    ensure_backtrace_patch()      # a fresh checkout without `./check setup`: the patched dependency must exist before any native build
     d = scratch_root()
     out = {}
     try:
